@@ -21,7 +21,7 @@ LEGS = {
     "miri_queries": {"tool": "miri", "prop": "C10",
                      "cases": [("bdd", i) for i in range(4)] + [("sdd", i) for i in range(4)] + [("ddnnf", i) for i in range(4)]},
     # FFI boxes, pointer casts, C strings
-    "miri_ffi": {"tool": "miri", "prop": "C18", "cases": [("bdd_api", i) for i in range(8)] + [("frontends", i) for i in range(4)]},
+    "miri_ffi": {"tool": "miri", "prop": "C18", "cases": [("bdd_api", i) for i in range(8)] + [("frontends", i) for i in range(4)] + [("handle_reuse", i) for i in range(6)]},
     # hash-identified builders: get_or_insert_by_hash through the raw table pointer, lookups by hash and by negated hash
     "miri_semantic": {"tool": "miri", "prop": "C11", "cases": [("semantic_sdd", i) for i in range(6)] + [("semantic_ddnnf", i) for i in range(4)]},
     # top-down compilation: unsafe get_or_insert of both d-DNNF node stores, several CNFs per builder
@@ -30,7 +30,7 @@ LEGS = {
     "asan_semantic": {"tool": "asan", "prop": "C11", "tier": "quick"},
     "asan_bdd": {"tool": "asan", "prop": "C02", "tier": "thorough"},
     "asan_ffi": {"tool": "asan", "prop": "C18", "tier": "quick"},
-    "valgrind_ffi": {"tool": "valgrind", "prop": "C18", "cases": [("bdd_api", i) for i in range(12)] + [("frontends", i) for i in range(6)]},
+    "valgrind_ffi": {"tool": "valgrind", "prop": "C18", "cases": [("bdd_api", i) for i in range(12)] + [("frontends", i) for i in range(6)] + [("handle_reuse", i) for i in range(12)]},
 }
 
 
